@@ -5,9 +5,12 @@
 
 regenerate
   re-runs translate/gen_scalar.py (Naive: coq/Gen/ScalarGen.v) and translate/gen_scalar_eigen.py
-  (Eigen: coq/Gen/ScalarGenEigen.v) on the CURRENT tree; ctx.prove() then re-checks
-  Props/Properties_C08_elementwise.v (Backend/EigenElem.v: efw_<k> = fw_<k>, ebw_<k> = bw_<k> for
-  all real arguments) against the regenerated definitions.  Constructs outside the translated
+  (Eigen: coq/Gen/ScalarGenEigen.v) on the CURRENT tree, each together with its ABSTRACT version
+  (Gen/ScalarGenAbs.v, Gen/ScalarGenEigenAbs.v: `/`, pow, exp, log, sqrt, tanh, sin, cos, tan are
+  fields of an arbitrary o : ops); ctx.prove() then re-checks Props/Properties_C08_elementwise.v
+  (Backend/EigenElem.v: aefw_<k> o = afw_<k> o, aebw_<k> o = abw_<k> o for every o and all real
+  arguments - the headline -, the instantiation at Rops and the corollaries efw_<k> = fw_<k>)
+  against the regenerated definitions.  Constructs outside the translated
   fragment are listed in the evidence (and break the theorem of that kernel).
 
 search
@@ -81,7 +84,8 @@ def regenerate(ctx):
     etable = gen_scalar_eigen.main()
     cov = ctx.cov.setdefault("elementwise_theorems", {})
     cov["translator"] = {
-        "files": ["translate/gen_scalar_eigen.py -> coq/Gen/ScalarGenEigen.v", "translate/gen_scalar.py -> coq/Gen/ScalarGen.v"],
+        "files": ["translate/gen_scalar_eigen.py -> coq/Gen/ScalarGenEigen.v + coq/Gen/ScalarGenEigenAbs.v (abstract: arbitrary o : ops)",
+                  "translate/gen_scalar.py -> coq/Gen/ScalarGen.v + coq/Gen/ScalarGenAbs.v (abstract)"],
         "source": [os.path.join(pv.REPO, "primitiv/devices/eigen/ops"), os.path.join(pv.REPO, "primitiv/devices/naive/ops")],
         "eigen_definitions": len(etable["defs"]), "naive_definitions": len(ntable["defs"]),
         "eigen_elementwise_files": sorted(f for f, n in etable["files"].items() if n),
@@ -335,6 +339,8 @@ def search(ctx, tables, proof_res):
             "seconds": round(time.time() - t0, 2)}
     cov["focused_search"] = summ
     restore_generated()
-    cov["rule"] = ("theorems: for every real argument the Eigen expression and the Naive expression of each of the 66 elementwise formulas "
-                   "(regenerated from the tree) are equal; run: both formulas in double and both real kernels on the grid below")
+    cov["rule"] = ("theorems: for every interpretation of the partial / library operations (/, pow, exp, log, sqrt, tanh, sin, cos, tan) and every real "
+                   "argument the Eigen expression and the Naive expression of each of the 66 elementwise formulas (regenerated from the tree) are equal, "
+                   "i.e. the backends make the same calls on the same arguments (hypotheses: exp 0 = 1 for elu forward, (p*r)/q = (p/q)*r for the gb gradient of divide); "
+                   "corollary over Coq's real functions; run: both formulas in double and both real kernels on the grid below")
     return summ
